@@ -85,11 +85,11 @@ PinnedLoop(nd, aty, i, t) ==
 (* ------------------------------------------------- state functions ns -> ns' *)
 
 (* a send call for node n: stamp, queue behind earlier held messages, release what fits *)
-SendNs(ns, n, ty, data) ==
+SendNsG(ns, g, n, ty, data) ==
     LET nd0 == Node(ns, n)
         nd1 == IF "PinnedExpiry" \in Q THEN nd0 ELSE ExpireAll(nd0, now)
         sq  == IF seqOn THEN nd1.sseq ELSE 0
-        m   == [seq |-> sq, ty |-> ty, data |-> data, id |-> FGet(ghost.sub, n, 0) + 1]
+        m   == [seq |-> sq, ty |-> ty, data |-> data, id |-> FGet(g.sub, n, 0) + 1]
         nd2 == [nd1 EXCEPT !.sseq = IF seqOn THEN IncSeq(@) ELSE @]
         nd3 == IF "PinnedExpiry" \in Q
                THEN (* pinned: admitted only if nothing is held; otherwise queued, the queue is not retried *)
@@ -99,6 +99,7 @@ SendNs(ns, n, ty, data) ==
                     ELSE [nd2 EXCEPT !.defer = Append(@, m)]
                ELSE Release(ns, n, [nd2 EXCEPT !.defer = Append(@, m)])
     IN Put(ns, n, nd3)
+SendNs(ns, n, ty, data) == SendNsG(ns, ghost, n, ty, data)
 
 (* node-table part of processing an uplink message of type aty from node n (every type, also MSG_STALL) *)
 AfterAnswer(ns, n, aty) ==
